@@ -91,8 +91,8 @@ Theorem model_follows_sources :
      "if(file_rec->dirty&0x02)"; "HIextend_file(file_rec)"] /\
   HIextend_file_skel = ["HPseek(file_rec,file_rec->f_end_off)"; "HP_write(file_rec,&temp,1)"] /\
   HTPcreate_skel =
-    ["HTIfind_dd(file_rec,(uint16)1,(uint16)0,&dd_ptr,1)"; "HTInew_dd_block(file_rec)"; "else";
-     "HTIupdate_dd(file_rec,dd_ptr)"] /\
+    ["HTIfind_dd(file_rec,tag,ref,&dd_ptr,1)"; "HTIfind_dd(file_rec,(uint16)1,(uint16)0,&dd_ptr,1)";
+     "HTInew_dd_block(file_rec)"; "else"; "HTIupdate_dd(file_rec,dd_ptr)"] /\
   (forall a b, getdiskblock_mark_off a b = a + b - 1 /\ getdiskblock_advance b = b /\ newblock_size b = 6 + b * 12 /\
      newblock_end a b = a + 6 + b * 12 /\ prev_next_field_off a = a + 2 /\ dd_disk_off a b = a + 6 + b * 12 /\
      start_block_end a b = a + 6 + b * 12).
